@@ -175,6 +175,64 @@ def gen_history(run_seed: int, tier: str) -> Dict[str, Any]:
     return {"kind": "history", "run_seed": run_seed, "base": base, "ops": ops}
 
 
+DIRECTED = [
+    # (name, python expression applied to a loadable synthetic document `d`) — the exact inputs of the
+    # committed known findings, re-tried on every run so that each KNOWN-FINDING line is printed (or
+    # disappears once the defect is repaired) independently of what the seeded histories happen to hit
+    ("alias-integerLiteral", "d['typeAliases'].append({'name': 'KF1', 'type': {'kind': 'integerLiteral', 'value': 1}})"),
+    ("alias-booleanLiteral", "d['typeAliases'].append({'name': 'KF2', 'type': {'kind': 'booleanLiteral', 'value': False}})"),
+    ("enum-float-value", "d['enumerations'].append({'name': 'KF3', 'type': {'kind': 'base', 'name': 'uinteger'}, 'values': [{'name': 'V1', 'value': 1.5}]})"),
+]
+
+
+def run_directed(t: Dict[str, Any]) -> Dict[str, Any]:
+    init()
+    probes = _probes()
+    viol: List[Dict[str, str]] = []
+    d = schema.synth_doc(loadable=True)
+    exec(t["expr"], {"d": d})
+    if not G["ref"].is_valid(d):
+        return _result(t, [], probes, skipped="directed document is not schema-valid")
+    probes["loads"] += 1
+    try:
+        m = _load([d])
+        diff = first_diff(norm_doc(d), readback(m))
+        if diff:
+            viol.append({"sig": f"readback-differs:{path_class(diff)}", "msg": f"directed {t['name']}: {diff}"})
+    except Exception as e:
+        probes["load_rejected_valid"] += 1
+        viol.append({"sig": f"load-rejected:{norm_exc(e)}", "msg": f"directed {t['name']}: schema-valid document rejected by create_lsp_model: {core.fmt_exc(e)[:300]}"})
+    return _result(t, viol, probes, evlog=[t["name"], [v["sig"] for v in viol]])
+
+
+def run_truncation(t: Dict[str, Any]) -> Dict[str, Any]:
+    """Torn write of the model file at a given offset (systematic sweep): the gate must hold."""
+    init()
+    probes = _probes()
+    doc = _sub_for_gate(t["sub_seed"])
+    data = models.dumps(doc)
+    cut = min(len(data) - 1, int(len(data) * t["frac"]))
+    bad = data[:cut]
+    cls, parsed = G["ref"].classify(bad)
+    if cls == "valid":
+        return _result(t, [], probes, skipped="truncation kept the document valid")
+    probes["fault_not_json" if cls == "not-json" else "fault_schema_invalid"] += 1
+    probes["truncation_points"] += 1
+    w = gw.World(f"c18t-{t['run_seed']}")
+    try:
+        if t["position"] == "second":
+            files = w.write_models("m", [models.dumps(_sub_for_gate(t["sub_seed"] + 1)), bad])
+        else:
+            files = w.write_models("m", [bad])
+        viol = gate_check(w, t["plugin"], files, t["prepopulate"], t["run_seed"], "not JSON" if cls == "not-json" else "schema-invalid", probes)
+    finally:
+        w.destroy()
+    for v in viol:
+        v["sig"] += ":truncate"
+        v["msg"] += f" [model file torn at byte {cut} of {len(data)}]"
+    return _result(t, viol, probes, evlog=["truncate", cut, len(data), t["plugin"], t["position"], [v["sig"] for v in viol]])
+
+
 def gen_gate_tasks(seed: int, tier: str) -> List[Dict[str, Any]]:
     init()
     tasks = []
@@ -197,6 +255,15 @@ def gen_gate_tasks(seed: int, tier: str) -> List[Dict[str, Any]]:
         rs = core.derive(seed, PROP, "gate-default", ci, p)
         tasks.append({"kind": "gate_class", "run_seed": rs, "cls": list(classes[ci]), "plugin": p, "position": "default",
                       "sub_seed": core.derive(rs, "sub") % 2**40, "prepopulate": core.derive(rs, "prepop") % 3})
+    # the exact inputs of the committed known findings
+    for i, (name, expr) in enumerate(DIRECTED):
+        tasks.append({"kind": "directed", "run_seed": core.derive(seed, PROP, "directed", i), "name": name, "expr": expr})
+    # torn model file at evenly spaced offsets (systematic)
+    n_cut = 24 if tier == "quick" else 400
+    for i in range(n_cut):
+        rs = core.derive(seed, PROP, "truncate", i)
+        tasks.append({"kind": "truncation", "run_seed": rs, "frac": (i + 0.5) / n_cut, "plugin": gw.PLUGINS[i % 4], "position": "second" if i % 3 == 2 else "single",
+                      "sub_seed": core.derive(seed, PROP, "truncate-model") % 2**40, "prepopulate": i % 3})
     # unreadable model files
     for i, (p, how) in enumerate([(p, how) for p in gw.PLUGINS for how in ("enoent", "eio", "directory")]):
         rs = core.derive(seed, PROP, "gate-unreadable", i)
@@ -368,7 +435,7 @@ def _probes() -> Dict[str, int]:
     return {k: 0 for k in ["loads", "readbacks", "merges", "merge_files", "compares", "node_compares", "equal_pairs_judged", "unequal_pairs_judged",
                            "annotation_only_pair", "alias_compared", "flip_kept_valid", "fault_schema_invalid", "fault_not_json", "gate_invocations",
                            "gate_prepopulated", "second_file_bad", "violation_class_fired", "edits_applied", "edits_with_rare_kinds", "load_rejected_valid",
-                           "plugin_probe_unavailable", "reloads_same_objects", "first_file_bad", "default_model_bad", "unreadable_enoent", "unreadable_eio", "unreadable_directory", "metadata_first_file"]}
+                           "plugin_probe_unavailable", "reloads_same_objects", "first_file_bad", "default_model_bad", "truncation_points", "unreadable_enoent", "unreadable_eio", "unreadable_directory", "metadata_first_file"]}
 
 
 def _result(t: Dict[str, Any], viol: List[Dict[str, str]], probes: Dict[str, int], skipped: Optional[str] = None, evlog: Any = None) -> Dict[str, Any]:
@@ -623,6 +690,10 @@ def worker_run(t: Dict[str, Any]) -> Dict[str, Any]:
             return run_history(t)
         if t["kind"] == "gate_class":
             return run_gate_class(t)
+        if t["kind"] == "directed":
+            return run_directed(t)
+        if t["kind"] == "truncation":
+            return run_truncation(t)
         return run_gate_unreadable(t)
     except core.HarnessError as e:
         return {"run_seed": t.get("run_seed"), "kind": t.get("kind"), "violations": [], "harness": str(e), "probes": {}, "digest": "harness"}
@@ -699,7 +770,7 @@ def replay_file(path: str) -> int:
 
 
 TIERS = {
-    "quick": {"histories": 700, "det": 40, "budget": 110.0},
+    "quick": {"histories": 700, "det": 40, "budget": 90.0},
     "thorough": {"histories": 20000, "det": 200, "budget": 2400.0},
 }
 
@@ -736,11 +807,12 @@ def main(argv: List[str]) -> int:
     hist_seeds = [core.derive(seed, PROP, "hist", i) for i in range(cfg["histories"])]
     tasks: Dict[int, Dict[str, Any]] = {}
 
-    def gen():
-        # gate classes first: they are the enumerated part and must complete within the budget
+    def gen_enumerated():
         for t in gate_tasks:
             tasks[t["run_seed"]] = t
             yield t
+
+    def gen():
         for s in hist_seeds:
             t = gen_history(s, tier)
             tasks[s] = t
@@ -760,7 +832,11 @@ def main(argv: List[str]) -> int:
         return len(unknown) >= 6
 
     try:
-        core.run_pool(worker_run, gen(), on_result=on_result, deadline=t0 + cfg["budget"], per_task_timeout=900.0)
+        # the enumerated part (violation classes, directed probes, truncation sweep, unreadable files)
+        # always runs to completion; the wall budget applies to the seeded histories only
+        core.run_pool(worker_run, gen_enumerated(), on_result=on_result, per_task_timeout=900.0)
+        if len([s_ for s_ in first_fail if rep.kf.match(PROP, s_) is None]) < 6 and len(rep.harness_errors) < 3:
+            core.run_pool(worker_run, gen(), on_result=on_result, deadline=time.monotonic() + cfg["budget"], per_task_timeout=900.0)
     except core.HarnessError as e:
         rep.harness_error(str(e))
     ok = [r for r in results if not r.get("harness")]
@@ -830,7 +906,7 @@ def main(argv: List[str]) -> int:
         "run_kinds": kinds,
         "violation_classes_total": classes_total,
         "violation_classes_fired": classes_fired,
-        "faults_fired": {k: probes.get(k, 0) for k in ["fault_not_json", "fault_schema_invalid", "flip_kept_valid", "second_file_bad", "first_file_bad", "default_model_bad", "violation_class_fired",
+        "faults_fired": {k: probes.get(k, 0) for k in ["fault_not_json", "fault_schema_invalid", "flip_kept_valid", "second_file_bad", "first_file_bad", "default_model_bad", "truncation_points", "violation_class_fired",
                                                         "unreadable_enoent", "unreadable_eio", "unreadable_directory", "gate_prepopulated"]},
         "probes": probes,
         "skipped": skipped,
